@@ -162,6 +162,10 @@ def user_row_fn(spec):
     elif name == 'nullify':
         def row_fn(row):
             row[f] = None
+    elif name == 'stop_at':
+        def row_fn(row):                       # the classic bug: next() on an exhausted iterator inside a row function
+            if row.get('id') == spec['at']:
+                next(iter(()))
     else:
         raise AssertionError(name)
     return row_fn
@@ -387,6 +391,10 @@ def _by_type(res, types):
 def _plain(name):
     import re
     return re.fullmatch(r'[A-Za-z_][A-Za-z0-9_]*', name) is not None
+
+
+# only C01 lets user row functions raise StopIteration (everywhere else a program is expected to run to its end)
+ALLOW_STOP_ITERATION = [False]
 
 
 class Skip(Exception):
@@ -622,6 +630,8 @@ def _draw_spec(draw, state, kinds, counter):
         return {'k': k, 'with_stats': draw(st.booleans())}
     if k == 'update_stats':
         return {'k': k, 'key': 'stat%d' % n, 'value': n}
+    if k == 'row_fn' and ALLOW_STOP_ITERATION[0] and draw(st.integers(0, 7)) == 0:
+        return {'k': k, 'fn': 'stop_at', 'field': 'id', 'at': draw(st.integers(1, 3)), 'form': draw(st.sampled_from(FORMS))}
     if k == 'row_fn':
         fn = draw(st.sampled_from(['inc_int', 'upper', 'inc_int', 'append_nested']))
         if _by_type(res, ['array', 'object']) and draw(st.booleans()):
